@@ -139,8 +139,7 @@ Definition nextv_of (k : ckind) : nextv :=
   end.
 Definition prevv_of (k : ckind) : prevv :=
   match k with
-  | FHE | FE | CHF => PrevDec
-  | CF => PrevDecEarly
+  | FHE | FE | CHF | CF => PrevDec
   | _ => PrevWrap
   end.
 Definition ctorv_of (k : ckind) : ctorv :=
@@ -216,7 +215,7 @@ Definition bnd_has_inc (k : kind) (s : mesh) : bool :=
   | KV => full_bu s
   | KHE | KE => ebu s && fbu s
   | KHF | KF => fbu s
-  | KC => true                     (* BoundaryItemIter<CellIter,CellHandle>::has_incidences() { return true; } *)
+  | KC => fbu s                    (* since "fix: boundary cell iterator needs face bottom-up incidences" *)
   | KM => false
   end.
 Definition bnd_begin (k : kind) (s : mesh) : option bstate :=
